@@ -262,7 +262,9 @@ def main(argv=None):
     if out["broken"]:
         for b in out["broken"]:
             print("ANALYSIS-BROKEN property=%s %s" % (pid, b))
-        return 2
+        if not out["violations"]:
+            return 2
+        # a rule that lost its anchor does not silence a definite violation found by another rule
     if out["violations"]:
         od = os.path.join(os.environ.get("VERIF_OUT") or os.path.join(VERIF, "out"), pid)
         os.makedirs(od, exist_ok=True)
